@@ -4,6 +4,8 @@
 # and /verif/sim stay free while it runs. For every seeded change: apply, rebuild, run the quick
 # checks named in its meta.json (detected_by), undo. exit 1 if a change is no longer detected by a
 # check that used to detect it. Removes its scratch copies at the end.
+# SEEDED_ROOT=<dir> takes the changes from another directory (candidates being triaged: each
+# <name>/patch.diff + meta.json whose detected_by keys name the checks to try); SCR=<dir> moves the scratch copies.
 SCR=${SCR:-/root/scratch/regress}
 REPO2=$SCR/repo; SIM2=$SCR/sim; V2=$SCR/verif
 rm -rf "$SCR"; mkdir -p "$SCR" "$V2"
@@ -15,7 +17,7 @@ cp /verif/known_findings.txt "$V2/"; mkdir -p "$V2/loom"
 rsync -a --exclude target --exclude muxshadow /verif/shuttle/ "$V2/shuttle/"
 ( cd "$SIM2" && ./gen_shadow.sh && cargo build --release --offline -q 2>&1 | grep -E "^error" -A 6 | head -20 )
 FAIL=0
-for d in /verif/seeded/*${1:-}*/; do
+for d in "${SEEDED_ROOT:-/verif/seeded}"/*${1:-}*/; do
   n=$(basename "$d")
   ids=$(python3 -c "import json; print(' '.join(json.load(open('$d/meta.json'))['detected_by'].keys()))")
   [ -z "$ids" ] && { echo "$n: no check listed"; continue; }
@@ -30,7 +32,7 @@ for d in /verif/seeded/*${1:-}*/; do
       *) BIN=muxsim; case "$id" in C01|C14|C19) BIN=syssim;; esac
          out=$(VERIF_DIR="$V2" "$SIM2/target/release/$BIN" check "$id" --tier quick --no-evidence 2>&1);;
     esac
-    if echo "$out" | grep -q "VIOLATION property=${id%[LS]}\|^violation scenario"; then res="$res $id:caught"; else res="$res $id:MISSED"; FAIL=1; fi
+    if echo "$out" | grep -q "VIOLATION property=${id%[LS]}\|^violation scenario"; then res="$res $id:caught"; [ -n "${SHOW:-}" ] && echo "$out" | grep -m2 "^violation" | cut -c1-300; else res="$res $id:MISSED"; FAIL=1; fi
     rm -rf "$V2/replays"
   done
   echo "$n:$res"
